@@ -173,6 +173,9 @@ func GenRuleLines(t *rapid.T, paths ...string) []string {
 			return ""
 		case k < 12:
 			return "# " + rapid.SampledFrom(Names).Draw(t, "comment")
+		case k < 15:
+			// a line that is not a pattern (an opening bracket that is never closed): ignored, the rest applies
+			return rapid.SampledFrom([]string{"[", "foo[", "![", "/a/[x", "*.[", "[/"}).Draw(t, "invalid")
 		}
 		var p string
 		if len(paths) > 0 && k < 70 {
